@@ -22,6 +22,7 @@ type propInfo struct {
 	Oracles     []string
 	Assumptions []string
 	Components  map[string]string
+	Instr       bool      // runs on the scratch copy with inserted scheduling points (non-race build)
 	Also        *propInfo // a second engine that also decides this property
 	// systematic fault placement over small base scenarios (engine B), run as a second batch of the check
 	Enum              bool
@@ -157,7 +158,7 @@ func sprintf(f string, a ...interface{}) string { return fmtSprintf(f, a...) }
 
 var fmtSprintf = fmt.Sprintf
 
-var propC20 = &propInfo{Engine: "C", Level: "exploration", Race: false, QuickS: 50, ThoroughS: 900, PerRunS: 40,
+var propC20 = &propInfo{Engine: "C", Level: "exploration", Race: false, Instr: true, QuickS: 50, ThoroughS: 900, PerRunS: 40,
 	Rule:    "runs are plans generated from mix64(VERIF_SEED, property, run index): 2-4 (quick) / 2-8 (thorough) goroutines with 2-12 scripted calls each (increments with distinct power-of-two deltas, gets, puts of unique values, removes, inserts of unique tags, transactions incl. failing ones whose body can be pre-empted between its calls) on ONE shared Counter / Map / List object, plus a sync goroutine calling Sync() against a model server that also feeds operations of a remote replica; a seeded scheduler decides at every scheduling point (hook H6: lock acquisition, the begin/unlock windows of the transaction layer, pack creation and application) who runs next. Non-trivial: >= 2 goroutines and > 10 scheduling decisions; distinct = distinct hash of the sequence of (task, site) decisions.",
 	Oracles: []string{"C20.no-panic / process-crash (incl. runtime fatal errors such as unlock of an unlocked mutex)", "C20.no-deadlock", "C20.queued-once-in-order", "C20.tx-not-interleaved", "C20.no-lost-update (shared object == replay of the stream; counter == sum)", "C20.linearizable (porcupine, counter and map histories)", "C20.no-race (race detector; the baton is invisible to it)"},
 	Assumptions: []string{
